@@ -99,6 +99,20 @@ def check_pair(acc, sch, w, mod, tname, tags, va, vb, rng):
         acc.violation(PROP, 'copy-differs-from-source:' + _diff_kind(sch, tname, oa[0], ob[0]),
                       witness(copy=C.jsonable(ob[0]), sparse_source=sparse))
         return
+    # structural independence: source and copy are two trees without a common object
+    try:
+        ia, ib = pyrt.object_ids(a, sch, tname), pyrt.object_ids(b, sch, tname)
+    except Exception as e:  # noqa
+        acc.violation(PROP, 'observation-after-copy-raises:%s' % type(e).__name__,
+                      witness(error='%s: %s' % (type(e).__name__, e)))
+        return
+    ida = dict((i, p_) for p_, i in ia)
+    common = [(ida[i], p_) for p_, i in ib if i in ida]
+    acc.count('object_tree_checks')
+    if common or len(set(i for _p, i in ib)) != len(ib):
+        acc.violation(PROP, 'aliasing:copy-and-source-share-an-object' if common else 'aliasing:object-twice-in-the-copy',
+                      witness(shared=common[:4], sparse_source=sparse))
+        return
     # independence, both directions
     for who, x, other in (('source', a, b), ('copy', b, a)):
         try:
